@@ -42,7 +42,8 @@ pub fn hook_audit_items() -> std::collections::BTreeMap<String, Vec<String>> {
         "AtomicBool", "AtomicUsize", "AtomicIsize", "AtomicU32", "AtomicI32", "AtomicU16", "AtomicI16", "AtomicU8", "AtomicI8", "AtomicPtr", "Condvar",
         "Barrier", "OnceLock", "OnceCell", "LazyLock", "UnsafeCell", "SyncUnsafeCell",
     ];
-    let phrases = ["thread_local!", "lazy_static", "once_cell", "crossbeam", "static mut", "spin_loop", "yield_now", "thread::sleep", "thread::park", "thread::spawn"];
+    // (spin_loop, yield_now and sleep are scheduling hints, not synchronisation: the stutter rules deal with the loops around them)
+    let phrases = ["thread_local!", "lazy_static", "once_cell", "crossbeam", "static mut", "thread::park", "thread::spawn"];
     let idents = |s: &str| -> Vec<String> { s.split(|c: char| !(c.is_alphanumeric() || c == '_')).filter(|w| !w.is_empty()).map(String::from).collect() };
     let mut out = std::collections::BTreeMap::new();
     for f in AUDITED_FILES {
